@@ -8,20 +8,25 @@
    Quantifier: every first message, every list of loop iterations [its : list citer] (ticker,
    values waiting on the progress channel in any order — increasing, repeated, decreasing, bursts —,
    channel closed or not, any receive result, the same again for the second handleProgress call
-   of the iteration); no bound on the length.
+   of the iteration, and the same again for every tick of the progress ticker that is served
+   while the output channel is full and the client holds a message it cannot hand over:
+   [i_blocked it], any number of ticks); no bound on the length.
 
    This file holds only statements closed by [exact], their assumptions, and non-vacuity examples.
    Vocabulary (model/Client.v, proofs/ClientProofs.v, proofs/ClientProofs2.v):
    [crun first its = (final state, observations)]; [acks obs] = the values of the CSend
    (SendStandbyStatus) observations in order; [CGetStart l fresh] = GetConnWithStartLsn(l), fresh =
    the manager had no live connection, so START_REPLICATION l was issued; [iter_values it] = the
-   values delivered on the progress channel during iteration [it]; [start_pos first] = ServerWALEnd
-   of the first keepalive. *)
+   values delivered on the progress channel during iteration [it] = i_prog it ++ i_prog2 it ++
+   blocked_values (i_blocked it) (loop head, second handleProgress call, ticks served while the
+   output channel is full); [start_pos first] = ServerWALEnd of the first keepalive. *)
 From Bifrost.model Require Import Base Client.
 From Bifrost.proofs Require Import ClientProofs ClientProofs2.
 From Coq Require Import Sorted.
 
 (* ---------------- monotone ---------------- *)
+(* (all points at which a status update is sent: loop head, timeout, keepalive reply, and every
+   tick served while the downstream channel is full - [crun] runs the blocked-output loop) *)
 Theorem C03_acks_monotone : forall first its, Sorted N.le (acks (snd (crun first its))).
 Proof. exact crun_acks_sorted. Qed.
 Print Assumptions C03_acks_monotone.
@@ -30,7 +35,10 @@ Print Assumptions C03_acks_monotone.
 (* The observations of a run cut after any number of iterations are a prefix of the observations
    of the whole run, and what was acknowledged up to the cut is the start position, 0 (the
    value before the first keepalive is parsed: only if that keepalive is unparsable), or a value
-   delivered on the progress channel during the iterations before the cut. *)
+   delivered on the progress channel during the iterations before the cut.
+   STATEMENT CHANGE (blocked-output loop): the source set [iter_values] had to be extended by the
+   values delivered at the ticks served while the output channel is full - a status update sent
+   from the WriteLoop acknowledges such a value (see C03_blocked_send_nonvacuous). *)
 Theorem C03_acks_sourced : forall first its1 its2,
   acks (snd (crun first (its1 ++ its2))) =
     acks (snd (crun first its1)) ++ acks (snd (citers (fst (crun first its1)) its2)) /\
@@ -41,14 +49,27 @@ Print Assumptions C03_acks_sourced.
 
 (* finer than iteration granularity: inside one iteration, what is sent before the receive comes
    from the current value or the values waiting at the loop head; what is sent after it may also
-   come from the values waiting at the second handleProgress call *)
+   come from the values waiting at the second handleProgress call or (STATEMENT CHANGE, as above)
+   at a tick served while the output channel is full *)
 Theorem C03_acks_sourced_within_iteration : forall s it s' o,
   cstep s it = (s', o) -> stopped s = false -> i_pclosed it = false ->
   exists pre post, o = pre ++ CRecv :: post /\ ~ In CRecv pre /\ ~ In CRecv post /\
     (forall a, In a (acks pre) -> a = overall s \/ In a (i_prog it)) /\
-    (forall a, In a (acks post) -> a = overall s \/ In a (i_prog it) \/ In a (i_prog2 it)).
+    (forall a, In a (acks post) -> a = overall s \/ In a (i_prog it) \/ In a (i_prog2 it) \/
+                                   In a (blocked_values (i_blocked it))).
 Proof. exact cstep_acks_fine. Qed.
 Print Assumptions C03_acks_sourced_within_iteration.
+
+(* the blocked sends made explicit: EVERY status update of an iteration (any state, stopped or
+   not, wherever it is sent from - in particular from the blocked-output loop) carries the
+   position held when the iteration began or a value delivered on the progress channel during
+   the iteration; C03_acks_monotone / C03_acks_sourced / C03_acks_never_from_data quantify over
+   these sends too *)
+Theorem C03_blocked_sends_sourced : forall s it s' o a,
+  cstep s it = (s', o) -> In a (acks o) ->
+  a = overall s \/ In a (i_prog it) \/ In a (i_prog2 it) \/ In a (blocked_values (i_blocked it)).
+Proof. exact cstep_sends_sourced. Qed.
+Print Assumptions C03_blocked_sends_sourced.
 
 (* ---------------- never from received data ---------------- *)
 (* [data_positions its] = every position carried by a received message (WalStart of XLogData,
@@ -63,11 +84,26 @@ Proof. exact crun_acks_data_independent. Qed.
 Print Assumptions C03_acks_never_from_data.
 
 (* ---------------- restart position ---------------- *)
-(* (a) every connection request of an iteration carries highestWalStart as it was at the loop head *)
+(* (a) every connection request of an iteration carries highestWalStart as it was at the loop
+   head - with one exception.
+   STATEMENT CHANGE (blocked-output loop).  Before the loop was modelled this read
+   [... -> l = highest s].  That is false now: handleXLogData advances highestWalStart to a
+   received COMMIT BEFORE it enters the WriteLoop, so the GetConnWithStartLsn calls made by
+   sendProgressStatus from the WriteLoop of that COMMIT carry the NEW value (witness:
+   C03_blocked_commit_request_carries_new_position).  Those requests never issue
+   START_REPLICATION (f = false: the connection is open), and every request that does issue it
+   carries the loop-head value: C03_restart_lsn_request_fresh. *)
 Theorem C03_restart_lsn_request : forall s it s' o l f,
-  cstep s it = (s', o) -> In (CGetStart l f) o -> l = highest s.
+  cstep s it = (s', o) -> In (CGetStart l f) o ->
+  l = highest s \/
+  (f = false /\ exists w t, i_ev it = EXLog w (XCommit t) /\ i_blocked it <> [] /\ l = N.max (highest s) w).
 Proof. exact cstep_getstart. Qed.
 Print Assumptions C03_restart_lsn_request.
+
+Theorem C03_restart_lsn_request_fresh : forall s it s' o l,
+  cstep s it = (s', o) -> In (CGetStart l true) o -> l = highest s.
+Proof. exact cstep_getstart_fresh. Qed.
+Print Assumptions C03_restart_lsn_request_fresh.
 
 (* (b) highestWalStart changes only at a received COMMIT (to the maximum) and at recovery (to the
    position the server reports); nothing changes when the client is stopped or stops at the loop
@@ -97,13 +133,20 @@ Print Assumptions C03_restart_lsn_initial.
    client that is still running, every connection request — in particular every
    START_REPLICATION — carries exactly hi_spec of the events received in iterations 0..k-1:
    the end of the last transaction whose COMMIT was received, never later; after a recovery,
-   the server's reported position (then again the maximum with later COMMITs).  The second
-   conjunct places the iteration's outputs in the run. *)
+   the server's reported position (then again the maximum with later COMMITs).  The last
+   conjunct places the iteration's outputs in the run.
+   STATEMENT CHANGE (blocked-output loop), see C03_restart_lsn_request: the requests made from
+   the WriteLoop of a COMMIT received in iteration k itself (never a START_REPLICATION: f = false)
+   carry hi_spec of the events 0..k, that COMMIT included; every START_REPLICATION (f = true)
+   carries hi_spec of the events 0..k-1 as before. *)
 Theorem C03_restart_lsn : forall first its1 it its2 s' o l f,
   stopped (fst (crun first its1)) = false ->
   cstep (fst (crun first its1)) it = (s', o) ->
   In (CGetStart l f) o ->
-  l = hi_spec 0 (map i_ev its1) /\
+  (l = hi_spec 0 (map i_ev its1) \/
+   (f = false /\ i_blocked it <> [] /\ (exists w t, i_ev it = EXLog w (XCommit t)) /\
+    l = hi_spec 0 (map i_ev (its1 ++ [it])))) /\
+  (f = true -> l = hi_spec 0 (map i_ev its1)) /\
   snd (crun first (its1 ++ it :: its2)) = snd (crun first its1) ++ o ++ snd (citers s' its2).
 Proof. exact crun_restart_lsn. Qed.
 Print Assumptions C03_restart_lsn.
@@ -131,7 +174,7 @@ Print Assumptions C03_connection_closed_only_by.
 
 (* ---------------- non-vacuity ---------------- *)
 Definition c03_first : cev := EKeepalive 100 false false.
-Definition c03_it (tick : bool) (prog : list N) (e : cev) : citer := mkIter tick prog false e [] false.
+Definition c03_it (tick : bool) (prog : list N) (e : cev) : citer := mkIter tick prog false e [] false [].
 
 (* a transaction whose COMMIT (position 500) is received while the progress channel delivers 150
    (an older transaction became durable): 150 is acknowledged, twice; 500 — a data position — is not *)
@@ -168,3 +211,36 @@ Example C03_restart_after_recovery :
   hi_spec 0 (map i_ev its) = 900%N /\
   snd (cstep (fst (crun c03_first its)) (c03_it false [] ENil)) = [CGetStart 900 true; CRecv].
 Proof. vm_compute. intuition. Qed.
+
+(* the blocked-output loop: the COMMIT at 500 is held for three ticks because the output channel
+   is full; the ticks find 150, nothing, then 120 and 170 on the progress channel: 150, 150, 170
+   are acknowledged (sorted, each a delivered value, never the data position 500), THEN the COMMIT
+   is forwarded; the client keeps running *)
+Definition c03_blocked_commit : citer :=
+  mkIter false [] false (EXLog 500 (XCommit "7")) [] false [([150], false); ([], false); ([120; 170], false)]%N.
+
+Example C03_blocked_send_nonvacuous :
+  let s := fst (crun c03_first [c03_it false [] (EXLog 200 (XBegin "7"))]) in
+  snd (cstep s c03_blocked_commit) =
+    [CGetStart 0 false; CRecv; CGetStart 500 false; CSend 150; CGetStart 500 false; CSend 150;
+     CGetStart 500 false; CSend 170; COut "COMMIT" "7" "7-0" 500] /\
+  stopped (fst (cstep s c03_blocked_commit)) = false /\
+  blocked_values (i_blocked c03_blocked_commit) = [150; 120; 170]%N.
+Proof. vm_compute. repeat split. Qed.
+
+(* the witness for the statement change of C03_restart_lsn_request: highestWalStart is 0 at the
+   loop head, the requests made while the COMMIT at 500 is held carry 500 (and are not fresh) *)
+Example C03_blocked_commit_request_carries_new_position :
+  let s := fst (crun c03_first [c03_it false [] (EXLog 200 (XBegin "7"))]) in
+  highest s = 0%N /\ In (CGetStart 500 false) (snd (cstep s c03_blocked_commit)) /\
+  highest (fst (cstep s c03_blocked_commit)) = 500%N.
+Proof. vm_compute. intuition. Qed.
+
+(* a tick served while the output channel is full finds the progress channel closed: the update
+   of the tick before it is sent, the COMMIT is never forwarded, the client stops *)
+Example C03_blocked_channel_closed :
+  let s := fst (crun c03_first [c03_it false [] (EXLog 200 (XBegin "7"))]) in
+  let it := mkIter false [] false (EXLog 500 (XCommit "7")) [] false [([150], false); ([160], true); ([170], false)]%N in
+  snd (cstep s it) = [CGetStart 0 false; CRecv; CGetStart 500 false; CSend 150; CClose; CStop] /\
+  stopped (fst (cstep s it)) = true.
+Proof. vm_compute. split; reflexivity. Qed.
